@@ -1,0 +1,7 @@
+//go:build verif
+
+package receiver
+
+// VerifRecvFile1 exposes recvFile1 (open the local basis, receiveData, rename)
+// to the verification harness under /verif.
+func (rt *Transfer) VerifRecvFile1(f *File) error { return rt.recvFile1(f) }
